@@ -50,6 +50,12 @@ CHECKS = {
  "C19": (MC, "TLA+ ObjLife outcome table (allocation class x registered x operation) checked over the whole matrix by TLC; every way of obtaining an object x every disposing operation run on real objects with free() interposed; validated by TLC (ObjTrace)",
          "TLC walks the class x operation matrix with up to three disposals per object and checks that only heap objects are ever released, at most once, and that a refused operation leaves the object live; on the real library 23 ways of obtaining an object (all allocation families, stack and static objects, copies, elements/keys/values of every container with element types of sizes 1, 8, 12 and owning types, iterator and view results, run-time type instances) are combined with del, del_raw, del_root, dealloc, dealloc_raw and the in-place String/Tuple operations, and TLC checks type_of, the header's allocation class, size(type) usable bytes without touching a neighbour, release exactly once (free() observed) for heap objects and ResourceError/ValueError with unchanged bytes and no free() for all others.",
          "objects are released through the family that created them (in contract); open finding F-C19-del-nonheap (del of a non-heap object is silently ignored) reported by its pinned script", "5/C19"),
+ "C09": (EX, "TLA+ reference orders (Values.tla: int64 from limbs, IEEE order from bit patterns, byte-wise, lexicographic lifting) checked by TLC to be total orders on boundary grids; cmp and its six predicates evaluated on all pairs of boundary tables per type and on container values; every evaluation validated by TLC (ValTrace Mode cmp)",
+         "the quantifier ranges over numeric and byte-string domains that cannot be enumerated: the specification is the oracle language. TLC checks that the reference relations are total orders on boundary grids; the real cmp, eq, neq, lt, gt, le, ge are evaluated on all ordered pairs of 24-value tables per type (differences beyond 32 and 64 bits, signed zeros, denormals, infinities, prefixes, bytes >= 0x80, type names, plain structs) and on Array/List/Tuple/Tree values of different lengths and kinds, and TLC checks each sign and predicate against the reference computed from the raw operands.",
+         "sampled value domain (boundary tables + random); NaN excluded; Table ordering not part of the property", "5/C09"),
+ "C10": (EX, "HashLaw in TLA+ (abstract value -> first observed hash, later observations must agree; eq = equality of abstract values; copy/assign/swap preserve values) validated by TLC over recorded observations on instances in different allocation classes and containers reached through different histories (ValTrace Mode hash)",
+         "values of Int, Float (+0/-0), String, Type, plain structs are instantiated on the stack, on the heap and inside containers; Tables are built in different insertion orders, with extra insert/remove pairs and reserves, Trees, Arrays, Lists and Tuples with equal elements; hash of every instance, eq of every pair, copy, assign (also across container kinds) and swap are logged with raw operands and TLC checks that each abstract value has one hash, that eq is abstract equality, and that copy/assign/swap deliver the source value.",
+         "sampled value domain; eq between a Tree and a Table is not generated (their iteration orders differ by design)", "5/C10"),
 }
 
 NOT_YET = {
